@@ -299,24 +299,45 @@ func ruleReverseGroups(c *Ctx) {
 		key := "executor:" + e.Name
 		n2, n1 := 0, 0
 		bad := ""
-		allInstrs(e.Fn, func(ins ssa.Instruction) {
-			call, ok := ins.(*ssa.Call)
-			if !ok {
-				return
-			}
-			n := calleeName(call.Common())
-			step := int64(0)
-			if strings.HasSuffix(n, "proto.Array).ReverseBy") {
-				step, _ = constInt(call.Common().Args[1])
-			} else if strings.HasSuffix(n, "proto.Array).Reverse") {
-				step = 1
-			} else {
-				return
-			}
-			with := 0 // 1 true, -1 false
-			for _, at := range factsAt(call.Block()) {
-				if at.Kind == "val" {
-					if _, f, _, ok := fieldOf(at.X); ok && f == "WITHSCORES" {
+		var scan func(fn *ssa.Function, isWith, isReply func(v ssa.Value) bool, depth int)
+		scan = func(fn *ssa.Function, isWith, isReply func(v ssa.Value) bool, depth int) {
+			allInstrs(fn, func(ins ssa.Instruction) {
+				call, ok := ins.(*ssa.Call)
+				if !ok {
+					return
+				}
+				n := calleeName(call.Common())
+				step := int64(0)
+				if strings.HasSuffix(n, "proto.Array).ReverseBy") {
+					step, _ = constInt(call.Common().Args[1])
+				} else if strings.HasSuffix(n, "proto.Array).Reverse") {
+					step = 1
+				} else {
+					// a framework helper handed the reply and the WITHSCORES flag
+					callee := staticCallee(call.Common())
+					if callee == nil || callee.Blocks == nil || !inFramework(callee) || depth >= 2 {
+						return
+					}
+					withP, replyP := map[ssa.Value]bool{}, map[ssa.Value]bool{}
+					for i, a := range call.Common().Args {
+						if i >= len(callee.Params) {
+							break
+						}
+						if isWith(strip(a)) {
+							withP[callee.Params[i]] = true
+						}
+						if isReply(strip(a)) {
+							replyP[callee.Params[i]] = true
+						}
+					}
+					if len(withP) > 0 && len(replyP) > 0 {
+						scan(callee, func(v ssa.Value) bool { return withP[v] }, func(v ssa.Value) bool { return replyP[v] }, depth+1)
+					}
+					return
+				}
+				with := 0 // 1 true, -1 false
+				for _, at := range factsAt(call.Block()) {
+					if at.Kind == "val" && isWith(at.X) {
 						if at.Pos {
 							with = 1
 						} else {
@@ -324,28 +345,37 @@ func ruleReverseGroups(c *Ctx) {
 						}
 					}
 				}
-			}
-			switch {
-			case step == 2 && with == 1:
-				n2++
-			case step == 1 && with == -1:
-				n1++
-			default:
-				bad = fmt.Sprintf("reversal with step %d on the WITHSCORES=%v side at %s: member/score pairs are torn apart or members swapped pairwise", step, with == 1, c.P.instrPos(call))
-			}
-			// the array reversed is the handler's reply
-			arr := strip(call.Common().Args[0])
-			if ex, ok := arr.(*ssa.Extract); ok {
-				if ac, ok := ex.Tuple.(*ssa.Call); ok && strings.HasSuffix(calleeName(ac.Common()), "Message).Array") {
-					if hx, ok := strip(ac.Common().Args[0]).(*ssa.Extract); ok {
-						if hc, ok := hx.Tuple.(*ssa.Call); ok && hc.Common().IsInvoke() {
+				switch {
+				case step == 2 && with == 1:
+					n2++
+				case step == 1 && with == -1:
+					n1++
+				default:
+					bad = fmt.Sprintf("reversal with step %d on the WITHSCORES=%v side at %s: member/score pairs are torn apart or members swapped pairwise", step, with == 1, c.P.instrPos(call))
+				}
+				// the array reversed is the handler's reply
+				arr := strip(call.Common().Args[0])
+				if ex, ok := arr.(*ssa.Extract); ok {
+					if ac, ok := ex.Tuple.(*ssa.Call); ok && strings.HasSuffix(calleeName(ac.Common()), "Message).Array") {
+						if isReply(strip(ac.Common().Args[0])) {
 							return
 						}
 					}
 				}
+				bad = "the array reversed is not the handler's reply"
+			})
+		}
+		scan(e.Fn, func(v ssa.Value) bool {
+			_, f, _, ok := fieldOf(v)
+			return ok && f == "WITHSCORES"
+		}, func(v ssa.Value) bool {
+			if hx, ok := v.(*ssa.Extract); ok {
+				if hc, ok := hx.Tuple.(*ssa.Call); ok && hc.Common().IsInvoke() {
+					return true
+				}
 			}
-			bad = "the array reversed is not the handler's reply"
-		})
+			return false
+		}, 0)
 		c.check(bad == "" && n2 == 1 && n1 == 1, rid, key, c.P.pos(e.Fn.Pos()), "ReverseBy(2) with scores, Reverse otherwise, on the handler's reply", "reverse-by-groups does not match the shape of the reply: "+bad+fmt.Sprintf(" (step-2 sites=%d, step-1 sites=%d)", n2, n1))
 	}
 }
